@@ -246,6 +246,70 @@ def val_of_input(pj, inp):
     return {"env": env, "strides": strides, "variant": "random"}
 
 
+class SafeInterp:
+    """the reference interpreter behind a watchdog: a request that takes longer than `limit` seconds
+    (exact rationals can grow) kills and restarts the driver; the request counts as unanswered"""
+
+    def __init__(self, ctx, limit):
+        from interp import Interp
+
+        self.ctx, self.limit, self.Interp = ctx, limit, Interp
+        self.it = Interp()
+
+    def close(self):
+        try:
+            self.it.drv.p.kill()
+        except Exception:  # noqa
+            pass
+
+    def run(self, pj, inputs):
+        import select
+
+        if not inputs:
+            return []
+        drv = self.it.drv
+        line = json.dumps({"op": "exec", "proc": pj, "inputs": inputs}, separators=(",", ":"))
+        try:
+            drv.p.stdin.write(line + "\n")
+            drv.p.stdin.flush()
+        except BrokenPipeError:
+            raise InfraError("Sem driver died")
+        ready, _, _ = select.select([drv.p.stdout], [], [], self.limit)
+        if not ready:
+            self.ctx.count("interpreter-timeout")
+            drv.p.kill()
+            self.it = self.Interp()
+            return [{"timeout": True} for _ in inputs]
+        out = drv.p.stdout.readline()
+        if not out:
+            raise InfraError("Sem driver died: " + drv.p.stderr.read()[-500:])
+        r = json.loads(out)
+        if "bad" in r:
+            raise InfraError(f"Sem driver rejected request: {r['bad']}")
+        return r["results"]
+
+    def gen_inputs(self, pj, cfg_types, rng, n):
+        from interp import gen_one
+
+        cand = []
+        for t in range(6 * n):
+            c = gen_one(pj, cfg_types, rng, dense_only=(t % 3 == 2), small=(t % 2 == 1))
+            if c is not None:
+                cand.append(c)
+            if len(cand) >= 2 * n:
+                break
+        good, res = [], []
+        for c in cand:
+            if len(good) >= n:
+                break
+            r = self.run(pj, [c])[0]
+            if "invalid" in r or "bad" in r or "timeout" in r:
+                continue
+            good.append(c)
+            res.append(r)
+        return good, res
+
+
 # --------------------------------------------------------------------------- the check
 class Checker:
     def __init__(self, ctx, front, drv, interp):
@@ -279,6 +343,8 @@ class Checker:
             return res["err"], inp
         if "ok" in res:
             return "ok", inp
+        if "timeout" in res:
+            return "inadmissible", inp
         return "invalid:" + str(res.get("invalid", res)), inp
 
     def handle_falsified(self, name, body, pj, val, fals, which, verdict_src):
@@ -412,7 +478,7 @@ class Checker:
         ctx = self.ctx
         n = ctx.scale(4, 10)
         try:
-            inputs, results = self.interp.gen_inputs(pj, cfgs, ctx.rng, n, tries=6)
+            inputs, results = self.interp.gen_inputs(pj, cfgs, ctx.rng, n)
         except InfraError:
             raise
         for inp, res in zip(inputs, results):
@@ -516,7 +582,7 @@ def run(ctx):
                       + str(e)[:300], {"source": c03_gen.PRELUDE}, no_input=True)
         return
     drv = LeanDriver("Drivers/C03.lean")
-    interp = Interp()
+    interp = SafeInterp(ctx, ctx.scale(20, 60))
     ck = Checker(ctx, front, drv, interp)
     thorough = not ctx.quick
     t_budget = ctx.scale(120, 800)
